@@ -15,14 +15,14 @@ from .common import bump, length_of
 
 INFO = {
     "level": "other",
-    "explanation": "Import layouts (chain, diamond, 2- and 3-cycles, aliases, references two levels deep, a file imported twice, "
+    "explanation": "Import layouts (chain, diamond, a diamond whose shared file is reached as 'c.pg' and as '../c.pg', 2- and 3-cycles, KEYWORD in the root with the keyword-like string only in the imported file (regex model, alphabet {i f x ; space}), aliases, references two levels deep, a file imported twice, "
     "terminals sections in imported files, override of an imported rule from the root and from an intermediate file) are "
     "written to a scratch directory and loaded by the real Grammar.from_file / PGFile / PGFileImport machinery; each is "
     "paired with a hand-flattened single-file grammar (rules renamed to their qualified names along the first import "
     "path, '.' written '_').  Natively: the nonterminal and terminal key sets equal the flattened grammar's (each file's "
     "rules once).  Symbolically, w with len(w) <= N: same acceptance and same result from the LR parsers, same number of "
     "trees and same call_actions results from the GLR parsers.",
-    "bounds": {"quick": {"layouts": 12, "N": 5}, "thorough": {"layouts": 12, "N": 6}},
+    "bounds": {"quick": {"layouts": 14, "N": 5}, "thorough": {"layouts": 14, "N": 6}},
     "outside": "inputs longer than N; layouts other than the listed ones; *_actions.py / *_recognizers.py companions; named matches",
     "assumptions": ["get_context stubbed; realize-atomic marks", "hand-flattened grammars are the reference"],
 }
@@ -59,6 +59,13 @@ LAYOUTS = {
               "S: x_A x_A; x_A: 'a' | 'b';"),
     "subdir": ({"root.pg": "import 'sub/a.pg';\nS: a.A 'x';", "sub/a.pg": "import '../b.pg';\nA: b.B | 'a';", "b.pg": "B: 'b' 'b';"},
                "S: a_A 'x'; a_A: a_b_B | 'a'; a_b_B: 'b' 'b';"),
+    # the shared file of a diamond reached under two spellings of its path
+    "diamond-dirs": ({"root.pg": "import 'a.pg';\nimport 'sub/b.pg';\nS: a.A b.B;", "a.pg": "import 'c.pg';\nA: 'a' c.C;",
+                      "sub/b.pg": "import '../c.pg';\nB: 'b' c.C;", "c.pg": "C: 'c' | EMPTY;"},
+                     "S: a_A b_B; a_A: 'a' a_c_C; b_B: 'b' a_c_C; a_c_C: 'c' | EMPTY;"),
+    # KEYWORD declared in the root, the keyword-like string only in the imported file
+    "keyword-import": ({"root.pg": "import 'a.pg';\nS: a.A ID ';' | ID ';';\nterminals\nID: /[a-z]+/;\nKEYWORD: /[a-z]+/;", "a.pg": "A: 'if';"},
+                       "S: a_A ID ';' | ID ';'; a_A: 'if';\nterminals\nID: /[a-z]+/;\nKEYWORD: /[a-z]+/;"),
     "sugar-in-import": ({"root.pg": "import 'a.pg';\nS: a.A+ 'x' a.B?;", "a.pg": "A: 'a' | 'c';\nB: 'b';"},
                         "S: a_A+ 'x' a_B?; a_A: 'a' | 'c'; a_B: 'b';"),
 }
@@ -71,6 +78,9 @@ def cases(tier, seed):
     out = []
     N = 5 if tier == "quick" else 6
     for nm in LAYOUTS:
+        if nm == "keyword-import":  # regex terminals run on the regex model: stated alphabet
+            out.append({"name": "%s|N=%d" % (nm, N), "params": {"layout": nm, "N": N, "alphabet": "ifx; "}, "budget_s": 3000})
+            continue
         out.append({"name": "%s|N=%d" % (nm, N), "params": {"layout": nm, "N": N}, "budget_s": 3000})
     # ignore_case must reach the terminals of imported files too (letters in the imported terminals; inputs with either case)
     for nm in ("chain", "imported-terminals"):
@@ -128,6 +138,12 @@ def build(params, symbolic):
         return hfail
     lr_m, lr_f = _try(Parser, load(files, **gkw)), _try(Parser, Grammar.from_string(flat, **gkw))
     glr_m, glr_f = GLRParser(load(files, **gkw)), GLRParser(Grammar.from_string(flat, **gkw))
+    if symbolic:
+        from vp import pyre
+
+        for prs in (lr_m, lr_f, glr_m, glr_f):
+            if prs is not None:
+                pyre.install(prs.grammar, params.get("alphabet"), 4)
     for d in _dirs:
         for fn in os.listdir(d):
             if fn.endswith(".pgc"):
